@@ -995,6 +995,13 @@ impl<
 
         (self.radius_high, self.radius_vertex) = radius.into_inner().unwrap();
 
+        // In the symmetric case this visit has determined the forward
+        // eccentricity of `start`, which competes for the radius
+        if self.symmetric && self.radial_vertices[start] && self.radius_high > ecc_start {
+            self.radius_high = ecc_start;
+            self.radius_vertex = start;
+        }
+
         if self.diameter_low < ecc_start {
             self.diameter_low = ecc_start;
             self.diameter_vertex = start;
